@@ -38,7 +38,52 @@ var stdQueries = []Query{
 const qAll = 6
 
 func probeNames() []string {
-	return []string{"seq", "neg-midbulk", "fetch-stale-blocks", "handover", "retry-append", "range-clamp", "suicided-proxy", "getlids-overlap"}
+	return []string{"seq", "neg-midbulk", "fetch-stale-blocks", "handover", "retry-append", "range-clamp", "suicided-proxy", "getlids-overlap",
+		"handover-files", "handover-skipsort", "handover-keepmeta", "handover-skipsort-keepmeta",
+		"suicide-at-swap-files", "suicide-at-swap-skipsort", "suicide-unsealed-files", "suicide-unsealed-skipsort"}
+}
+
+// handoverFiles is the witness schedule of Props.C07_release_misplaced_close_v0_refuted, longer: write, search on the
+// active fraction, rotate, seal up to the swap, search + fetch through the sealed provider BEFORE the release, release,
+// fetch again through a fresh list and through the older list (proxy entry), finish the seal, fetch through the plain
+// sealed entry, second bulk, second rotation + complete seal, fetch from both fractions, retention removes fraction 0.
+func handoverFiles(o Opts) *Input {
+	w := Label{K: "W", T: 0}
+	d1 := Doc{MID: 10, RID: 1, Toks: []int{1}, Body: 1}
+	d2 := Doc{MID: 10, RID: 2, Toks: []int{2}, Body: 2}
+	d3 := Doc{MID: 40, RID: 3, Toks: []int{1, 2}, Body: 3}
+	ids := [][2]uint64{{10, 1}, {40, 3}}
+	return &Input{Opts: &o, Bulks: [][][]Doc{{{d1, d3}, {d2}}}, Queries: stdQueries, Labels: cat(rep(w, 12),
+		[]Label{{K: "Snap", T: 0}, {K: "SB", T: 0, J: 0, Q: 0}}, rep(Label{K: "R", T: 0}, 4),
+		[]Label{{K: "Rot"}}, rep(Label{K: "M", T: 0}, 4),
+		[]Label{{K: "Snap", T: 1}, {K: "SB", T: 1, J: 0, Q: qAll}, {K: "FB", T: 1, J: 0, IDs: ids}},
+		[]Label{{K: "M", T: 0}}, // Active.Release
+		[]Label{{K: "FB", T: 1, J: 0, IDs: ids}, {K: "FB", T: 0, J: 0, IDs: ids}, {K: "SB", T: 0, J: 0, Q: qAll}},
+		rep(Label{K: "M", T: 0}, 2),
+		[]Label{{K: "Snap", T: 2}, {K: "FB", T: 2, J: 0, IDs: ids}, {K: "SB", T: 2, J: 0, Q: 0}},
+		rep(w, 11), []Label{{K: "Rot"}}, rep(Label{K: "M", T: 1}, 7),
+		[]Label{{K: "Snap", T: 0}, {K: "FB", T: 0, J: 0, IDs: ids}, {K: "FB", T: 0, J: 1, IDs: [][2]uint64{{10, 2}}}, {K: "SB", T: 0, J: 1, Q: qAll},
+			{K: "Sui"}, {K: "FB", T: 0, J: 0, IDs: ids}, {K: "FB", T: 0, J: 1, IDs: [][2]uint64{{10, 2}}}, {K: "FB", T: 1, J: 0, IDs: ids}})}
+}
+
+// suicideAtSwap: retention deletes the fraction while its seal thread is parked between the swap and Active.Release
+// (Sealed.Suicide closes the sealed fraction's descriptors first, Active.Release runs afterwards)
+func suicideAtSwap(o Opts) *Input {
+	w := Label{K: "W", T: 0}
+	d1 := Doc{MID: 10, RID: 1, Toks: []int{1}, Body: 1}
+	ids := [][2]uint64{{10, 1}}
+	return &Input{Opts: &o, Bulks: [][][]Doc{{{d1}}}, Queries: stdQueries, Labels: cat(rep(w, 11),
+		[]Label{{K: "Rot"}}, rep(Label{K: "M", T: 0}, 4),
+		[]Label{{K: "Snap", T: 0}, {K: "FB", T: 0, J: 0, IDs: ids}, {K: "Sui"}, {K: "FB", T: 0, J: 0, IDs: ids}},
+		rep(Label{K: "M", T: 0}, 3), []Label{{K: "Snap", T: 1}, {K: "SB", T: 0, J: 0, Q: qAll}})}
+}
+
+// suicideUnsealed: retention deletes a rotated-out fraction whose seal has not started (Active.Suicide, not released)
+func suicideUnsealed(o Opts) *Input {
+	w := Label{K: "W", T: 0}
+	d1 := Doc{MID: 10, RID: 1, Toks: []int{1}, Body: 1}
+	return &Input{Opts: &o, Bulks: [][][]Doc{{{d1}}}, Queries: stdQueries, Labels: cat(rep(w, 11),
+		[]Label{{K: "Rot"}, {K: "Snap", T: 0}, {K: "Sui"}, {K: "FB", T: 0, J: 0, IDs: [][2]uint64{{10, 1}}}, {K: "M", T: 0}, {K: "Snap", T: 1}})}
 }
 
 func probeInput(name string) *Input {
@@ -47,6 +92,22 @@ func probeInput(name string) *Input {
 	d2 := Doc{MID: 10, RID: 2, Toks: []int{2}, Body: 2}
 	d3 := Doc{MID: 40, RID: 3, Toks: []int{1, 2}, Body: 3}
 	switch name {
+	case "handover-files":
+		return handoverFiles(Opts{})
+	case "handover-skipsort":
+		return handoverFiles(Opts{SkipSortDocs: true})
+	case "handover-keepmeta":
+		return handoverFiles(Opts{KeepMetaFile: true})
+	case "handover-skipsort-keepmeta":
+		return handoverFiles(Opts{SkipSortDocs: true, KeepMetaFile: true})
+	case "suicide-at-swap-files":
+		return suicideAtSwap(Opts{})
+	case "suicide-at-swap-skipsort":
+		return suicideAtSwap(Opts{SkipSortDocs: true})
+	case "suicide-unsealed-files":
+		return suicideUnsealed(Opts{KeepMetaFile: true})
+	case "suicide-unsealed-skipsort":
+		return suicideUnsealed(Opts{SkipSortDocs: true})
 	case "seq": // one bulk, then search and fetch
 		return &Input{Bulks: [][][]Doc{{{d1, d3}}}, Queries: stdQueries, Labels: cat(rep(w, 12),
 			[]Label{{K: "Snap", T: 0}, {K: "SB", T: 0, J: 0, Q: 0}}, rep(Label{K: "R", T: 0}, 4),
